@@ -665,3 +665,16 @@ impl Send {
         self.is_extended_connect_protocol_enabled
     }
 }
+
+#[cfg(feature = "h2_verif")]
+impl Send {
+    /// Read-only statistics for the verification harness (JSON object body).
+    pub(super) fn verif_json(&self) -> String {
+        format!(
+            "{},\"send_init_window\":{},\"send_max_stream_id\":{}",
+            self.prioritize.verif_json(),
+            self.init_window_sz,
+            u32::from(self.max_stream_id),
+        )
+    }
+}
